@@ -383,6 +383,11 @@ class BinaryZlibFile(io.BufferedIOBase):
         # return any data. In this case, try again after reading another block.
         while self._buffer_offset == len(self._buffer):
             try:
+                if self._decompressor.eof:
+                    # End-of-stream marker reached: any data after it is not
+                    # part of the stream and decompressing it again would
+                    # loop forever.
+                    raise EOFError
                 rawblock = self._decompressor.unused_data or self._fp.read(_BUFFER_SIZE)
                 if not rawblock:
                     raise EOFError
